@@ -9,7 +9,7 @@ EXPORT_ROOTS = [
     "variable_versions::data_number::FieldValue::to_be_bytes",
 ]
 COMMON_ROOTS = ["NetflowPacket::as_netflow_common", "NetflowParser::parse_bytes_as_netflow_common_flowsets"]
-SERIALIZE_ROOTS = ["<NetflowPacket as serde::Serialize>::serialize"]
+SERIALIZE_ROOTS = ["@serde::ser::Serialize|NetflowPacket|serialize"]
 ALL_ROOTS = PARSE_ROOTS + EXPORT_ROOTS + COMMON_ROOTS + SERIALIZE_ROOTS
 
 V5_PARSE = "static_versions::v5::V5Parser::parse"
@@ -44,6 +44,47 @@ class An:
 
     def local(self, body, l):
         return self.simp(self.slicer(body).local(l))
+
+    def parent_of_closure(self, body):
+        """(parent Body, closure aggregate expr in the parent) for a closure body, else (None, None)."""
+        import re as _re
+        m = _re.match(r"^(.*)::\{closure#\d+\}$", body.path)
+        if not m:
+            return None, None
+        parent = self.prog.body(m.group(1))
+        if parent is None:
+            return None, None
+        sl = self.slicer(parent)
+        for blk, i, s in parent.stmts():
+            if s["k"] == "assign" and s["rv"]["k"] == "aggregate" and s["rv"]["agg"] == "closure" and s["rv"]["closure"] == body.path:
+                return parent, self.simp(sl.rvalue(s["rv"], blk))
+        return parent, None
+
+    def lift(self, body, e, depth=0):
+        """Rewrite an expression of a closure body in terms of its (transitive) parent's values
+        by substituting the captured upvars."""
+        if depth > 4:
+            return body, e
+        parent, clo = self.parent_of_closure(body)
+        if parent is None or clo is None:
+            return body, e
+        mapping = {1: clo}
+        # the closure's own parameter, when it is handed to a Result/Option combinator in the parent
+        from ..slicer import RESULT_MAP, RESULT_MAP_ERR, OPTION_MAP, AND_THEN
+        for blk, t, c in parent.calls():
+            if c is None or len(t["args"]) != 2:
+                continue
+            a1 = peel(self.op(parent, t["args"][1]), identity=(), casts=False)
+            if a1[0] == "closure" and a1[1] == body.path:
+                recv = self.op(parent, t["args"][0])
+                if c.nsyn in RESULT_MAP or (c.nsyn in AND_THEN and "Result" in c.nsyn):
+                    mapping[2] = self.interp._through("ok", recv)
+                elif c.nsyn in RESULT_MAP_ERR:
+                    mapping[2] = self.interp._through("err", recv)
+                elif c.nsyn in OPTION_MAP or c.nsyn in AND_THEN:
+                    mapping[2] = self.interp._through("some", recv)
+        e2 = self.simp(self.interp.subst(e, mapping))
+        return self.lift(parent, e2, depth + 1)
 
 
 def roots_or_fail(ctx, prog, rule, roots):
@@ -144,3 +185,101 @@ def is_derived(body):
 
 def fn_label(body):
     return body.path
+
+
+# ---------------------------------------------------------------------------
+# finite constant evaluation (sets of possible values, phi = union)
+
+INT_RANGE = {"u8": (0, 2**8 - 1), "u16": (0, 2**16 - 1), "u32": (0, 2**32 - 1), "u64": (0, 2**64 - 1), "u128": (0, 2**128 - 1),
+             "usize": (0, 2**64 - 1), "i8": (-2**7, 2**7 - 1), "i16": (-2**15, 2**15 - 1), "i32": (-2**31, 2**31 - 1),
+             "i64": (-2**63, 2**63 - 1), "i128": (-2**127, 2**127 - 1), "isize": (-2**63, 2**63 - 1), "bool": (0, 1)}
+
+
+def const_eval(e, depth=0):
+    """Set of values an expression can take when it is built from constants only (else None).
+    Values are ints (bools as 0/1) or tuples (value, overflowed) for *WithOverflow results."""
+    if depth > 400:
+        return None
+    k = e[0]
+    if k == "const":
+        return {e[1]}
+    if k in ("ref", "deref"):
+        return const_eval(e[1], depth + 1)
+    if k == "mutlocal":
+        return const_eval(e[2], depth + 1)
+    if k == "phi":
+        out = set()
+        for x in e[1]:
+            v = const_eval(x, depth + 1)
+            if v is None:
+                return None
+            out |= v
+            if len(out) > 64:
+                return None
+        return out
+    if k == "cast" and e[1] in ("IntToInt",):
+        v = const_eval(e[2], depth + 1)
+        if v is None:
+            return None
+        rng = INT_RANGE.get(e[3])
+        if not rng:
+            return None
+        lo, hi = rng
+        out = set()
+        for x in v:
+            if isinstance(x, tuple):
+                return None
+            m = hi - lo + 1
+            y = (x - lo) % m + lo
+            out.add(y)
+        return out
+    if k == "tfield":
+        v = const_eval(e[1], depth + 1)
+        if v is None:
+            return None
+        out = set()
+        for x in v:
+            if not isinstance(x, tuple) or e[2] >= len(x):
+                return None
+            out.add(x[e[2]])
+        return out
+    if k == "unop" and e[1] == "Not":
+        v = const_eval(e[2], depth + 1)
+        if v is None or any(isinstance(x, tuple) or x not in (0, 1) for x in v):
+            return None
+        return set(1 - x for x in v)
+    if k == "binop":
+        a = const_eval(e[2], depth + 1)
+        b = const_eval(e[3], depth + 1)
+        if a is None or b is None or len(a) * len(b) > 256:
+            return None
+        ty = e[4] if len(e) > 4 else None
+        rng = INT_RANGE.get(ty)
+        op = e[1]
+        out = set()
+        for x in a:
+            for y in b:
+                if isinstance(x, tuple) or isinstance(y, tuple):
+                    return None
+                base = op.replace("WithOverflow", "").replace("Unchecked", "")
+                if base in ("Add", "Sub", "Mul"):
+                    r = {"Add": x + y, "Sub": x - y, "Mul": x * y}[base]
+                    if rng is None:
+                        return None
+                    lo, hi = rng
+                    ov = not (lo <= r <= hi)
+                    m = hi - lo + 1
+                    w = (r - lo) % m + lo
+                    out.add((w, 1 if ov else 0) if op.endswith("WithOverflow") else w)
+                elif base in ("Eq", "Ne", "Lt", "Le", "Gt", "Ge"):
+                    out.add(int({"Eq": x == y, "Ne": x != y, "Lt": x < y, "Le": x <= y, "Gt": x > y, "Ge": x >= y}[base]))
+                elif base in ("Div", "Rem"):
+                    if y == 0:
+                        return None
+                    out.add(int(x / y) if base == "Div" else x - y * int(x / y))
+                elif base in ("BitAnd", "BitOr", "BitXor"):
+                    out.add({"BitAnd": x & y, "BitOr": x | y, "BitXor": x ^ y}[base])
+                else:
+                    return None
+        return out
+    return None
